@@ -26,6 +26,25 @@ def content(size, ending):
     return s + tail
 
 
+def content_mixed(size):
+    """A valid program of exactly `size` bytes made of instructions of several lengths (so that chunk fitting pads)."""
+    parts = []
+    left = size
+    for ln in ("mov rax, 0x1122334455667788\n", "add rcx, 0x12345678\n", "add rax, rbx\n", "nop\n"):
+        while left - len(ln) >= 0 and (left - len(ln) == 0 or left - len(ln) >= 4) and len(parts) < 400:
+            parts.append(ln)
+            left -= len(ln)
+            if ln.startswith("mov") and len(parts) % 3 == 0:
+                break
+    if left:
+        parts.append(";" * (left - 1) + "\n" if left > 1 else "\n")
+    text = "".join(parts)
+    return text if len(text) == size else None
+
+
+SETTINGS = [("fit8", "k8"), ("fit16-strict", "a0\tk16"), ("offset7", "o7"), ("fit4-offset3", "k4\to3")]
+
+
 def sizes(tier):
     out = list(range(0, 65))
     for k in (1, 2, 3):
@@ -41,7 +60,8 @@ def run(tier, seed):
     rep.rule = ("files of every size 0..64 and every size within +-8 of 1, 2 and 3 pages, filled with a valid program ending with "
                 "a newline / with the last instruction touching the last byte / with CRLF / inside a comment; both file entry "
                 "points (plain and counting) against the string entry points on the same contents (return value, offset, bytes, "
-                "count); file mappings are placed flush against a PROT_NONE page (wrap seam) so that reading past the mapping "
+                "count), on fresh instances and on instances with chunk fitting / STRICT options / a start offset set and a "
+                "mixed-length program; file mappings are placed flush against a PROT_NONE page (wrap seam) so that reading past the mapping "
                 "faults deterministically; missing path, directory; asm_create_bin_file at offsets {0,1,17,6000,6001,12500} and "
                 "into a missing directory. distinct_nontrivial = distinct (size, ending, entry point) cases")
     try:
@@ -94,6 +114,46 @@ def run(tier, seed):
                          "file of %d bytes (%s), %s entry point: file %s, string %s" % (sz, ending, kind, str(sf)[:80], str(ss)[:80]))
         rep.states += len(meta)
         rep.bounds["sizes"] = len(sizes(tier))
+        # the same equivalence on instances that are not in their initial state: chunk fitting, options, start offset
+        hs = []
+        meta = []
+        for sz in [x for x in sizes(tier) if x >= 4]:
+            text = content_mixed(sz)
+            if text is None:
+                continue
+            path = os.path.join(tmp, "m%d.asm" % sz)
+            with open(path, "w", newline="") as f:
+                f.write(text)
+            for sname, sops in SETTINGS:
+                for kind in ("plain", "count"):
+                    if kind == "plain":
+                        hs.append("ZG\tc65536:p:cc\t%s\tf%s" % (sops, hexec.esc(path)))
+                        hs.append("ZG\tc65536:p:cc\t%s\tA%s" % (sops, hexec.esc(text)))
+                    else:
+                        hs.append("ZG\tc65536:p:cc\t%s\tn16:%s" % (sops, hexec.esc(path)))
+                        hs.append("ZG\tc65536:p:cc\t%s\tN16:%s" % (sops, hexec.esc(text)))
+                    meta.append((sz, sname, kind))
+        res = hexec.run(hs, variant="wrap", dangerous=True, timeout=20)
+        for i, (sz, sname, kind) in enumerate(meta):
+            of, os_ = res[2 * i], res[2 * i + 1]
+            rep.evaluations += 2
+            rep.traces += 1
+
+            def summ2(o):
+                if hexec.is_crash(o):
+                    return ("crash", o[-1])
+                a = hexec.Asm(next(x for x in o if x[:2] in ("f:", "n:", "A:", "N:")))
+                return (a.ret, a.off, a.hex, a.dest)
+            sf, ss = summ2(of), summ2(os_)
+            rep.distinct_n += 1
+            if sf != ss:
+                rep.fail({"class": "settings", "size": str(sz), "setting": sname, "entry": kind},
+                         ["crash" if sf[0] == "crash" else "differs-from-string-call"],
+                         {"kind": "settings", "size": sz, "setting": sname, "entry": kind},
+                         "mixed file of %d bytes on an instance with %s, %s entry point: file %s, string %s" %
+                         (sz, sname, kind, str(sf)[:70], str(ss)[:70]))
+        rep.states += len(meta)
+        rep.bounds["instance_settings"] = [n for n, _ in SETTINGS]
         # bad paths
         bad = [("missing", os.path.join(tmp, "nonexistent.asm")), ("directory", tmp), ("missing-dir", os.path.join(tmp, "no/such/f.asm"))]
         hs = []
@@ -187,6 +247,23 @@ def run(tier, seed):
 def replay(r, verbose=False):
     tmp = hexec.tmpdir()
     try:
+        if r["kind"] == "settings":
+            text = content_mixed(r["size"])
+            path = os.path.join(tmp, "m.asm")
+            with open(path, "w", newline="") as f:
+                f.write(text)
+            sops = dict(SETTINGS)[r["setting"]]
+            if r["entry"] == "plain":
+                hs = ["ZG\tc65536:p:cc\t%s\tf%s" % (sops, hexec.esc(path)), "ZG\tc65536:p:cc\t%s\tA%s" % (sops, hexec.esc(text))]
+            else:
+                hs = ["ZG\tc65536:p:cc\t%s\tn16:%s" % (sops, hexec.esc(path)), "ZG\tc65536:p:cc\t%s\tN16:%s" % (sops, hexec.esc(text))]
+            res = hexec.run(hs, variant="wrap", dangerous=True, nproc=1, timeout=20)
+            if verbose:
+                print([x[:80] for x in res[0]], "\n", [x[:80] for x in res[1]])
+            if hexec.is_crash(res[0]):
+                return True
+            a, b = [hexec.Asm(next(x for x in o if x[:2] in ("f:", "n:", "A:", "N:"))) for o in res]
+            return (a.ret, a.off, a.hex, a.dest) != (b.ret, b.off, b.hex, b.dest)
         if r["kind"] != "size":
             return True
         text = content(r["size"], r["ending"])
